@@ -1,7 +1,7 @@
 """C14 — results do not depend on what the process did before."""
 from .. import build, framework as fw, markers, trees
 from ..sexp import S, unS, dump, pretty
-from . import c02, c12, c20
+from . import c02, c10, c12, c20
 
 ENVS = [dict(markers.DEFAULT_ENV), dict(markers.DEFAULT_ENV, python_full_version='3.9.0', python_version='3.9', os_name='nt', sys_platform='win32'),
         dict(markers.DEFAULT_ENV, python_full_version='3.7.2', python_version='3.7', implementation_version='3.9')]
@@ -197,7 +197,7 @@ def run(ctx):
                          'versions under other spellings first, with independent steps permuted / reversed, and after the same program with every version literal spelled with other trailing zeros; one program in three is a family (markers sharing their root variable over different subtrees, bounds under two spellings); every observation (raw kind() dump incl. un-normalised '
                          'segments, Display, DNF, is_true/false, evaluate, ==/cmp/hash between results) must coincide. (2) raw node ids through the '
                          'verification hook: id equality <=> equal dumps, id^1 <=> negated dump, complement bit = the extracted store model\'s prediction, '
-                         'repeating an operation adds no node, stored versions are normalised. non-trivial = distinct programs / distinct non-constant dumps')
+                         'repeating an operation adds no node, stored versions are normalised. (3) id-for-id replay: programs of 14-30 API operations (MarkerTree::expression, and, or, negate, simplify_extras, simplify/complexify_python_versions) in a fresh process against the extracted model of the crate's recursions on ids (and_i with memo cache, restrict_i, simplify/complexify_pv_i, create_node): the raw node id (index and complement bit) and the arena length must coincide after every step. non-trivial = distinct programs / distinct non-constant dumps')
     # ---- (1) cross-history, fresh processes
     n_prog = 12 if quick else 60
     for p in range(n_prog):
@@ -291,6 +291,86 @@ def run(ctx):
             ctx.failure('a version with trailing zeros is stored in a node: %s' % pretty(v), {'version': pretty(v)}, cls=None)
             break
     sess.close()
+    # ---- (3) id-for-id replay: the same program through the crate (fresh process, raw ids and arena length through the hook) and through the
+    # extracted model of the crate's own recursions on ids (and_i with its memo cache, restrict_i, simplify/complexify_pv_i, create_node):
+    # every step must yield the same raw id (index and complement bit) and the same arena length
+    for pi in range(6 if quick else 40):
+        sess = markers.Session(h)
+        keys = markers.Keys(sess.p)
+        pv, pfv = keys.spelling['python_version'][1], keys.spelling['python_full_version'][1]
+        start = sess.ask(['const', 'T'])
+        base_len = int(sess.ask(['raw', str(start[1])])[2])
+        if base_len != 0:
+            ctx.count('replay:arena-not-empty-at-start')
+            sess.close()
+            continue
+        msteps, regs = [], []          # model steps; harness registers by program index
+        def record(reg, mstep):
+            x = sess.ask(['raw', str(reg)])
+            regs.append(reg)
+            msteps.append(mstep)
+            return (int(x[1]), int(x[2]))
+        impl = []
+        tries = 0
+        while len(regs) < (14 if quick else 30) and tries < 200:
+            tries += 1
+            r = ctx.rng.random()
+            if r < .4 or len(regs) < 3:
+                text = markers.gen_atom(ctx.rng, deprecated=0.0)
+                a = sess.ask(['expr', S(text)])
+                if a[0] != 'ok' or a[1] == 'none':
+                    continue
+                try:
+                    me = c10.typed_to_model(a[1])
+                except trees.Unmodelled:
+                    continue
+                impl.append(record(int(a[2]), ['expr', me]))
+            elif r < .7:
+                k = ctx.rng.choice(['and', 'or'])
+                i, j = ctx.rng.randrange(len(regs)), ctx.rng.randrange(len(regs))
+                reg, _ = sess.op(k, regs[i], regs[j])
+                if reg is None:
+                    break
+                impl.append(record(reg, [k, str(i), str(j)]))
+            elif r < .78:
+                i = ctx.rng.randrange(len(regs))
+                reg, _ = sess.op('not', regs[i])
+                impl.append(record(reg, ['not', str(i)]))
+            elif r < .88:
+                i = ctx.rng.randrange(len(regs))
+                ex = [e for e in markers.EXTRAS if ctx.rng.random() < .3]
+                exn = [sess.ask(['name', S(e)])[5][1] for e in ex]
+                reg, _ = sess.op('simpx', regs[i], [S(e) for e in ex])
+                if reg is None:
+                    break
+                impl.append(record(reg, ['simpx', exn, str(i)]))
+            else:
+                i = ctx.rng.randrange(len(regs))
+                k = ctx.rng.choice(['simppv', 'cplxpv'])
+                lo, hi = c12.rand_bound(ctx.rng, False), c12.rand_bound(ctx.rng, False)
+                reg, _ = sess.op(k, regs[i], lo, hi)
+                if reg is None:
+                    break
+                try:
+                    impl.append(record(reg, [k, c12.model_cut(sess, lo, True), c12.model_cut(sess, hi, False), str(i)]))
+                except trees.Unmodelled:
+                    regs.pop(); msteps.pop()
+                    break
+        sess.close()
+        out = fw.batch(build.DRIVER, [['runi', pv, pfv, msteps]])[0]
+        ctx.evaluations += 1
+        ctx.nontrivial(('replay', tuple(dump(m)[:40] for m in msteps)))
+        if out[0] != 'ok' or len(out) - 1 != len(impl):
+            ctx.disagreement('mrun_i ~ the crate (program replay)', [dump(m)[:120] for m in msteps], dump(out)[:300], 'program of %d steps' % len(impl))
+            continue
+        for n, (got, want) in enumerate(zip(out[1:], impl)):
+            ctx.corr_cases += 1
+            mid, mlen = int(got[0]), int(got[1])
+            if (mid, mlen) != want:
+                ctx.disagreement('mstep_i ~ the crate: raw node id and arena length after step %d (%s)' % (n, dump(msteps[n])[:120]),
+                                 [dump(m)[:160] for m in msteps[:n + 1]], 'id %d, arena %d' % (mid, mlen), 'id %d, arena %d' % want)
+                break
+        ctx.extra['replay_cache_entries'] = ctx.extra.get('replay_cache_entries', 0) + int(out[-1][2])
     if not ctx.samples:
         ctx.sample('(none)')
     return fw.finish(ctx, 'make -C /verif/coq Props/C14.vo  (coqc, Print Assumptions under each theorem)')
